@@ -175,6 +175,43 @@ func main() {
 		}
 	}
 
+	// 3b. CanTransferDecorator also recovers the sender (AsMessage) and rejects on error: with a signer of this
+	//     chain it refuses foreign chain ids on its own
+	ctChain := false
+	if fd := methodOf(evmante, "CanTransferDecorator", "AnteHandle"); fd != nil {
+		for _, s := range callsNamed(fd, af, "AsMessage") {
+			if len(s.call.Args) < 1 {
+				continue
+			}
+			sg := s.sc.canon(s.call.Args[0])
+			bound := (strings.Contains(sg, "MakeSigner(") || strings.Contains(sg, "NewLondonSigner(") || strings.Contains(sg, "LatestSignerForChainID(")) &&
+				strings.Contains(sg, ".EthChainID(") && !strings.Contains(sg, ".ChainId()") && !strings.Contains(sg, ".GetChainID()")
+			errVar := ""
+			ast.Inspect(s.sc.fd.Body, func(n ast.Node) bool {
+				if as, ok := n.(*ast.AssignStmt); ok && len(as.Rhs) == 1 && len(as.Lhs) == 2 && as.Rhs[0] == ast.Expr(s.call) {
+					if b, ok := as.Lhs[1].(*ast.Ident); ok {
+						errVar = b.Name
+					}
+				}
+				return true
+			})
+			rejects := false
+			for _, g := range guardsOf(s.sc.fd.Body) {
+				if g.cond == nil || g.pos < s.call.Pos() || !returnsError(g.body) {
+					continue
+				}
+				if be, ok := s.sc.deref(g.cond).(*ast.BinaryExpr); ok && be.Op == token.NEQ {
+					x, xo := be.X.(*ast.Ident)
+					y, yo := be.Y.(*ast.Ident)
+					if xo && yo && errVar != "" && ((x.Name == errVar && y.Name == "nil") || (y.Name == errVar && x.Name == "nil")) {
+						rejects = true
+					}
+				}
+			}
+			ctChain = bound && rejects
+		}
+	}
+
 	// 4. msg server: signer of the chain config; nonce bracket around Create/Call
 	msgSigner := false
 	if fd := kf["EthereumTx"]; fd != nil && fd.Body != nil {
@@ -254,7 +291,7 @@ func main() {
 	fmt.Printf("Definition sig_signer_constructor : string := %s.\n", CoqString(sigCtor))
 	fmt.Println("Definition current_facts : facts := {|")
 	fmt.Printf("  f_inc_check := %s;\n  f_inc_reads_account_sequence := %s;\n  f_inc_sets_plus_one := %s;\n", incCheck, CoqBool(incReads), CoqBool(incPlusOne))
-	fmt.Printf("  f_sig_signer_of_this_chain := %s;\n  f_sig_rejects_on_error := %s;\n  f_sig_sets_from := %s;\n", CoqBool(sigChain), CoqBool(sigRejects), CoqBool(sigSetsFrom))
+	fmt.Printf("  f_sig_signer_of_this_chain := %s;\n  f_cantransfer_signer_of_this_chain := %s;\n  f_sig_rejects_on_error := %s;\n  f_sig_sets_from := %s;\n", CoqBool(sigChain), CoqBool(ctChain), CoqBool(sigRejects), CoqBool(sigSetsFrom))
 	fmt.Printf("  f_msg_london_signer_of_this_chain := %s;\n  f_bracket_before := %s;\n  f_bracket_after := %s;\n  f_event_create_address_from_nonce := %s |}.\n",
 		CoqBool(msgSigner), CoqBool(before), CoqBool(after), CoqBool(createAddr))
 }
